@@ -141,6 +141,41 @@ static std::vector<long> iter_tags(const S& s) {
     return r;
 }
 
+// the same traversal with the postfix operators (*it++ forwards, *it-- backwards from the last element)
+template<class S>
+static std::vector<long> iter_tags_post(const S& s) {
+    using T = typename S::const_iterator::value_type;
+    std::vector<long> r;
+    const long cnt = (long)s.size();
+    auto it = s.begin();
+    for (long k = 0; k < cnt; ++k) {
+        r.push_back(Elem<T>::tag(*it++));
+    }
+    return r;
+}
+template<class S>
+static std::vector<long> iter_tags_back(const S& s) {
+    using T = typename S::const_iterator::value_type;
+    std::vector<long> r;
+    const long cnt = (long)s.size();
+    if (cnt == 0) {
+        return r;
+    }
+    auto it = s.begin();
+    for (long k = 0; k + 1 < cnt; ++k) {
+        ++it;
+    }
+    for (long k = 0; k < cnt; ++k) {
+        if (k + 1 < cnt) {
+            r.push_back(Elem<T>::tag(*it--));
+        } else {
+            r.push_back(Elem<T>::tag(*it));
+        }
+    }
+    std::reverse(r.begin(), r.end());
+    return r;
+}
+
 // all the ways of reading x.slice(i1,i2,m); returns (name, observation) list
 template<class T>
 static std::vector<std::pair<std::string, Obs>> read_variants(int n, int i1, int i2, int m, Obs* after) {
@@ -153,6 +188,9 @@ static std::vector<std::pair<std::string, Obs>> read_variants(int n, int i1, int
     };
     add("mut.iter", observe([&] { auto s = x.slice(i1, i2, m); return iter_tags(s); }));
     add("const.iter", observe([&] { auto s = cx.slice(i1, i2, m); return iter_tags(s); }));
+    add("mut.iter.post", observe([&] { auto s = x.slice(i1, i2, m); return iter_tags_post(s); }));
+    add("const.iter.post", observe([&] { auto s = cx.slice(i1, i2, m); return iter_tags_post(s); }));
+    add("const.iter.back", observe([&] { auto s = cx.slice(i1, i2, m); return iter_tags_back(s); }));
     add("mut.mat", observe([&] { auto s = x.slice(i1, i2, m); base_array<T> y(s); return tags(y); }));
     add("const.mat", observe([&] { auto s = cx.slice(i1, i2, m); base_array<T> y(s); return tags(y); }));
     add("const.deref", observe([&] { base_array<T> y = *cx.slice(i1, i2, m); return tags(y); }));
@@ -477,6 +515,34 @@ static void run_big(Json& js, vh::Rng& rng, long budget) {
     }
 }
 
+// same-array assignments with more than 64 elements and overlapping lattices (n up to 600, strides 1..3, both signs)
+template<class T>
+static void run_bigsame(Json& js, vh::Rng& rng, long budget) {
+    AssignCtx<T> ctx;
+    for (long k = 0; k < budget; ++k) {
+        const int n = (int)rng.range(150, 600);
+        const int am = (int)rng.range(1, 3), cnt = (int)rng.range(65, (n - 8) / am - 1);
+        const int shift = (int)rng.range(-6, 6);
+        const bool neg = rng.coin();
+        const int m = neg ? -am : am;
+        const int lo = (int)rng.range(7, n - 8 - am * (cnt - 1) - 1 > 7 ? n - 8 - am * (cnt - 1) - 1 : 7);
+        auto mk = [&](int first_lo) {   // slice covering first_lo, first_lo + am, ..., cnt elements, in the direction of m
+            Trip t;
+            if (!neg) {
+                t.i1 = first_lo, t.i2 = first_lo + am * (cnt - 1) + 1, t.m = m;
+            } else {
+                t.i1 = first_lo + am * (cnt - 1), t.i2 = first_lo - 1, t.m = m;
+            }
+            return t;
+        };
+        const Trip d = mk(lo), s = mk(lo + shift);
+        if (rejects(n, d.i1, d.i2, d.m) || rejects(n, s.i1, s.i2, s.m) || count_of(n, d.i1, d.i2, d.m) != count_of(n, s.i1, s.i2, s.m)) {
+            continue;
+        }
+        do_assign<T>(js, ctx, rng.coin() ? "same" : "same_c", true, n, d.i1, d.i2, d.m, {}, s.i1, s.i2, s.m);
+    }
+}
+
 int main(int argc, char** argv) {
     const std::string mode = vh::arg(argc, argv, "--mode", "read");
     const int nmax = std::atoi(vh::arg(argc, argv, "--nmax", "10"));
@@ -517,6 +583,8 @@ int main(int argc, char** argv) {
     } else if (mode == "big") {
         run_big<real_t>(js, rng, budget);
         run_big<cmplx_t>(js, rng, budget / 4);
+        run_bigsame<real_t>(js, rng, std::max<long>(20, budget / 20));
+        run_bigsame<cmplx_t>(js, rng, std::max<long>(10, budget / 40));
     } else {
         std::fprintf(stderr, "unknown mode\n");
         return 3;
